@@ -142,6 +142,20 @@ func runNDInner(s NDScript, res *vt.Result) {
 		}
 		return line[:len(line)-1], true
 	}
+	// batchRefused: does a fresh connection refuse even the plainest batch? (JSON-RPC batches are not the
+	// property's subject and are promised by no exported documentation; an SDK without them is accepted.)
+	batchRefused := func() bool {
+		a2, b2 := memio.NewPipe()
+		c2, err := (&mcp.IOTransport{Reader: a2, Writer: a2}).Connect(context.Background())
+		if err != nil {
+			return false
+		}
+		defer b2.Close()
+		defer c2.Close()
+		b2.Write([]byte(`[{"jsonrpc":"2.0","method":"probe"}]` + "\n"))
+		_, err = c2.Read(ctx)
+		return err != nil
+	}
 	readIn := func(step int, wire string) bool {
 		want, err := readEnv([]byte(wire))
 		if err != nil || !validEnv(want) {
@@ -184,8 +198,14 @@ func runNDInner(s NDScript, res *vt.Result) {
 			desc.WriteString(line)
 			res.Class(fmt.Sprintf("batch-in:%d", len(st.Wires)))
 			b.Write([]byte(line + eol))
-			for _, w := range st.Wires {
+			for j, w := range st.Wires {
 				if !readIn(i, w) {
+					if j == 0 && batchRefused() {
+						// accepted: this SDK has no batches at all (the connection is spent: the script ends here)
+						res.Violations = res.Violations[:len(res.Violations)-1]
+						res.Class("batch-refused")
+						res.Desc = desc.String()
+					}
 					return
 				}
 			}
@@ -229,8 +249,21 @@ func runNDInner(s NDScript, res *vt.Result) {
 			}
 			var arr []json.RawMessage
 			if err := json.Unmarshal(line, &arr); err != nil || arr == nil {
-				res.Failf("step %d: responses to a batch must be written as one JSON array line, got %q", i, line)
-				return
+				// accepted: the responses written one per line instead of re-assembled into one array (the
+				// property is about each message surviving the framing, not about batches)
+				if _, err := readEnv(line); err != nil {
+					res.Failf("step %d: responses to a batch must be written as one JSON array line or one per line, got %q", i, line)
+					return
+				}
+				arr = []json.RawMessage{line}
+				for len(arr) < len(st.Answers) {
+					more, ok := readLine(i)
+					if !ok {
+						return
+					}
+					arr = append(arr, more)
+				}
+				res.Class("batch-out-unbatched")
 			}
 			if len(arr) != len(st.Answers) {
 				res.Failf("step %d: batch reply has %d responses, want %d: %s", i, len(arr), len(st.Answers), line)
